@@ -25,7 +25,7 @@ From DV Require Import Lib.Base.
 Local Open Scope N_scope.
 
 (* ---------------------------------------------------------------- data *)
-Inductive mtype := TCall | TReturn | TError | TSignal.
+Inductive mtype := TCall | TReturn | TError | TSignal | TOther (k : N).   (* TOther k: a message type the bus does not know (k > 4) *)
 Inductive dest := DUnique (c : N) | DName (n : N).
 
 Record msg := mkMsg {
@@ -149,7 +149,12 @@ Definition can_receive (cf : cfg) (m : msg) (requested : bool) : bool :=
 (* bus_context_check_security_policy (sender = c active, addressed = proposed = r).
    Returns the pending list as it is when the function returns (nothing is rolled back
    on a refusal: cancel hooks only run on OOM) and the error, if refused. *)
+Definition unknown_type (m : msg) : bool := match m_type m with TOther _ => true | _ => false end.
+
 Definition check_security_policy (cf : cfg) (now : N) (pl : list pend) (c r : N) (m : msg) (full : bool) : list pend * option err :=
+  (* the switch on the message type is the FIRST thing the function does: "Message bus will not accept messages of unknown type";
+     nothing has been looked up or changed at that point *)
+  if unknown_type m then (pl, Some EAccessDenied) else
   let '(pl1, requested) :=
     if m_rserial m =? 0 then (pl, false)
     else match check_reply pl c r (m_rserial m) with
@@ -361,7 +366,7 @@ Definition no_owner (cf : cfg) (st : state) (c : N) (m : msg) : state * out :=
   match m_dest m with
   | DName n =>
       if negb (m_noauto m) && activatable n then
-        (if can_send cf m false then (with_held st (set_held (st_held st) n (held_for (st_held st) n ++ [(c, m)])), [])
+        (if can_send cf m false && negb (unknown_type m) then (with_held st (set_held (st_held st) n (held_for (st_held st) n ++ [(c, m)])), [])
          else (st, [(c, OErr EAccessDenied (m_serial m))]))
       else (st, [(c, OErr (if m_noauto m then ENameHasNoOwner else EServiceUnknown) (m_serial m))])
   | DUnique _ => (st, [(c, OErr (if m_noauto m then ENameHasNoOwner else EServiceUnknown) (m_serial m))])
